@@ -126,6 +126,8 @@ type FnVC struct {
 	genErr       string
 	ghostElem    map[string]types.Type
 	ghostDesc    map[string]string
+	elemRange    map[string][2]string
+	heapGoType   map[string]types.Type
 	heapNextref  map[string]string
 	extra        []*Obl
 }
@@ -178,7 +180,17 @@ func (f *FnVC) declHeapConst(h, version string) string {
 	if !ok {
 		panic("unknown heap " + h)
 	}
-	return f.declConst(h+"@"+version, so)
+	c := f.declConst(h+"@"+version, so)
+	if rng, ok := f.elemRange[h]; ok {
+		key := "rng:" + c
+		if !f.declSet[key] {
+			f.declSet[key] = true
+			// every element of an integer element heap is within its type's range (needed under quantifiers,
+			// where no ground type fact can be attached to the loaded term)
+			f.qfacts = append(f.qfacts, "(forall ((r Int) (k Int)) (! (and (<= "+rng[0]+" (select (select "+c+" r) k)) (<= (select (select "+c+" r) k) "+rng[1]+")) :pattern ((select (select "+c+" r) k))))")
+		}
+	}
+	return c
 }
 
 func (f *FnVC) fact(s string) {
@@ -240,7 +252,14 @@ func (f *FnVC) fieldHeap(st types.Type, idx int) (heap string, fld DTField) {
 }
 
 func (f *FnVC) elemHeap(elem types.Type) string {
-	return f.regHeap("E_"+shortTypeName(elem), "(Array Int (Array Int "+f.sorts.sortOf(elem)+"))")
+	h := f.regHeap("E_"+shortTypeName(elem), "(Array Int (Array Int "+f.sorts.sortOf(elem)+"))")
+	if lo, hi, ok := intRange(elem); ok {
+		if f.elemRange == nil {
+			f.elemRange = map[string][2]string{}
+		}
+		f.elemRange[h] = [2]string{sBig(lo), sBig(hi)}
+	}
+	return h
 }
 
 func (f *FnVC) cellHeap(t types.Type) string {
@@ -257,7 +276,12 @@ func (f *FnVC) mapHeaps(m *types.Map) (mv, md string) {
 
 func (f *FnVC) globalHeap(g *ssa.Global) string {
 	t := g.Type().(*types.Pointer).Elem()
-	return f.regHeap("G_"+sanitize(g.Pkg.Pkg.Name()+"_"+g.Name()), f.sorts.sortOf(t))
+	h := f.regHeap("G_"+sanitize(g.Pkg.Pkg.Name()+"_"+g.Name()), f.sorts.sortOf(t))
+	if f.heapGoType == nil {
+		f.heapGoType = map[string]types.Type{}
+	}
+	f.heapGoType[h] = t
+	return h
 }
 
 func (f *FnVC) ghostHeap(name string) (string, types.Type, bool) {
@@ -546,6 +570,10 @@ func (f *FnVC) typeInv(t string, ty types.Type) []string {
 		return out
 	}
 	switch u := ty.Underlying().(type) {
+	case *types.Array:
+		if lo, hi, ok := intRange(u.Elem()); ok {
+			out = append(out, "(forall ((k Int)) (! (and (<= "+sBig(lo)+" (select "+t+" k)) (<= (select "+t+" k) "+sBig(hi)+")) :pattern ((select "+t+" k))))")
+		}
 	case *types.Slice:
 		out = append(out, "(<= 0 (s_off "+t+"))", "(<= 0 (s_len "+t+"))", "(<= (s_len "+t+") (s_cap "+t+"))", "(<= 0 (s_ref "+t+"))", "(<= (s_cap "+t+") 4611686018427387904)", "(<= (s_off "+t+") 4611686018427387904)",
 			"(=> (= (s_ref "+t+") 0) (and (= (s_len "+t+") 0) (= (s_cap "+t+") 0) (= (s_off "+t+") 0)))")
